@@ -24,8 +24,8 @@ class C02(Prop):
     needs = ('frags', 'svg')
     rule = 'every scalar class (ASCII, multi-byte, double width, markup characters, quotes, C0/C1 controls, U+FFFE/FFFF, non-BMP, combining) in every channel (plain text, text in a box, quoted, legend name, legend declaration, tag) x pretty/compressed x switch combinations, plus mixed generator inputs; non-trivial when the document has a text or style element with input characters'
     level_text = ('Theorems C02_render_is_xml (for every safe tree, in pretty and compressed mode, the rendered string is a serialisation of that tree according to the XML 1.0 grammar for elements, attributes, character data and references), C02_document_is_safe (for every input and settings value the document the model builds is safe: fixed element/attribute names, attribute values without quote/</&, character data escaped), '
-                  'C02_text_round_trips (unescape (escape_html_text s) = s minus the characters XML cannot represent).')
-    level_note = 'the XML grammar is the inductive relation of Theory/Xml.v (elements, double-quoted attributes, character data, the five predefined and numeric references); expat re-parses every implementation output in this check'
+                  'C02_text_round_trips (unescape (escape_html_text s) = s minus the characters XML cannot represent; a carriage return is written as &#13; because a parser turns a literal one into a line feed, repair F12).')
+    level_note = 'the XML grammar is the inductive relation of Theory/Xml.v (elements, double-quoted attributes, character data, the five predefined references and &#39; / &#13;; a literal CR is not accepted as character data, nor TAB/LF/CR in attribute values, since a parser would replace them); expat re-parses every implementation output in this check'
     def make(self, gen, text, spec, entry, meta=None):
         return Item(gen, {'main': Run(text, spec, entry)}, dict(meta or {}, text=text), lambda t: self.make(gen, t, spec, entry))
     def items(self, rng, tier):
